@@ -648,7 +648,7 @@ func report(prop, tier string, seed int64, meta propMeta, all []result, crashes 
 		}
 		var mine []violation
 		for _, v := range r.Violations {
-			if !contains(v.Props, prop) && v.Kind != "mutex-wedged" && v.Kind != "lock-held" {
+			if !contains(v.Props, prop) && v.Kind != "mutex-wedged" && v.Kind != "lock-held" && v.Kind != "library-spin" {
 				// (a leaked or deadlocked library mutex wedges the endpoint: like a reproducible
 				// panic it fails whichever check met it)
 				cross[v.Kind]++
